@@ -195,7 +195,7 @@ def run(ctx):
     pc = {"ran": False}
     try:
         progcheck = importlib.import_module("engines.progcheck")
-        n = 300 if quick else 6000
+        n = 300 if quick else 30000
         kw = {}
         try:
             params = inspect.signature(progcheck.run_mode).parameters
@@ -206,6 +206,9 @@ def run(ctx):
         if not quick and "variant" in params:
             r2 = progcheck.run_mode(ctx, "api", n, variant="cache")
             pc["cache_variant"] = str(r2)[:300]
+            if "seed" in params:   # a further derived seed
+                r3 = progcheck.run_mode(ctx, "api", n, seed=ctx.seed * 1000 + 1)
+                pc["derived_seed"] = str(r3)[:300]
         elif not quick:
             pc["cache_variant"] = "progcheck.run_mode has no `variant` parameter; cache build covered by the row replay + sweep only"
     except ImportError as e:
@@ -213,6 +216,13 @@ def run(ctx):
     except Exception as e:   # a broken foreign harness must not hide this engine's result
         pc = {"ran": False, "reason": "engines.progcheck failed: %s: %s" % (type(e).__name__, str(e)[:300])}
     ctx.cov["progcheck"] = pc
+
+    if not quick and res["ok"]:   # independent re-check of the compiled theorems
+        rc, out = pv.sh("timeout 1200 coqchk -silent -o -Q . PV PV.Props.Properties_C04", cwd=pv.COQ, timeout=1300)
+        ctx.cov["coqchk"] = {"cmd": "coqchk -silent -o -Q . PV PV.Props.Properties_C04", "rc": rc, "tail": out[-600:]}
+        if rc != 0:
+            ctx.violation("coqchk", {"kind": "proof-obligation", "no_longer_checks": ["coqchk PV.Props.Properties_C04"],
+                                     "build_log_tail": out[-3000:]}, False, "coqchk rejects Properties_C04.vo")
 
     ctx.cov["exhaustive"] = False
     ctx.assumptions += [
